@@ -55,10 +55,27 @@ class ParInfo:
             near = next((a for a in x.iterancestors() if ptag(a) == 'w:p'), None)
             if ptag(x) == 'w:p': self.encloses_par = True
             if near is e: self.own.append(x)
-        self.tokens = [t for x in self.own if ptag(x) in ('w:t', 'm:t') for t in TOKEN.findall(x.text or '')]
+        # text the paragraph shows: its own, and everything below its hyperlinks - a link is rendered as ONE run from all
+        # the text below it, paragraphs of a text box anchored inside the link included (in document order)
+        def shown(x):
+            for a in x.iterancestors():
+                if a is e: return False
+                if ptag(a) == 'w:hyperlink' and next((b for b in a.iterancestors() if ptag(b) == 'w:p'), None) is e: return True
+            return False
+        own = set(self.own)
+        vis = [x for x in e.iterdescendants() if isinstance(x.tag, str) and (x in own or shown(x))] if self.encloses_par else self.own
+        self.tokens = [t for x in vis if ptag(x) in ('w:t', 'm:t') for t in TOKEN.findall(x.text or '')]
+        # ... of which those in a paragraph nested below one of its links: they are part of the link's one run, but WHERE in
+        # it no property says (a nested paragraph is concluded before the text around it) - membership is checked, not position
+        self.loose = {t for x in vis if x not in own and ptag(x) in ('w:t', 'm:t') for t in TOKEN.findall(x.text or '')}
         self.run_tabs = sum(1 for x in self.own if ptag(x) == 'w:tab' and ptag(x.getparent()) == 'w:r')
         self.breaks = sum(1 for x in self.own if ptag(x) == 'w:br')
         self.is_list = self.numId is not None and self.ilvl is not None
+
+    def same_text(self, toks):
+        """toks (tokens of one output paragraph) are this paragraph's tokens: all of them, nothing else, in source order"""
+        if not self.loose: return toks == self.tokens
+        return sorted(toks) == sorted(self.tokens) and [t for t in toks if t not in self.loose] == [t for t in self.tokens if t not in self.loose]
 
 
 def parts_of(data):
